@@ -348,7 +348,17 @@ void Ruleset::registerRunnableRulesetForCgroupPath(
     auto plugin = registry.create(it->get()->getName());
     plugin->setName(it->get()->getName());
     auto args = it->get()->getPluginArgs();
-    args.try_emplace("cgroup", cgroup.relativePath());
+    // Plugins read their cgroup argument as a pattern, this cgroup's path is
+    // meant literally: escape what glob(3) would interpret (systemd's escaped
+    // unit names contain backslashes, e.g. foo\x2dbar.service)
+    std::string literal_path;
+    for (char c : cgroup.relativePath()) {
+      if (c == '\\' || c == '*' || c == '?' || c == '[' || c == '{') {
+        literal_path.push_back('\\');
+      }
+      literal_path.push_back(c);
+    }
+    args.try_emplace("cgroup", literal_path);
     plugin->init(args, PluginConstructionContext(cgroup.cgroupFs()));
     action_group.emplace_back(plugin);
   }
